@@ -16,7 +16,7 @@ def graphs(tier, rng, rep, per_family=None):
     import families
     specs = [(sp, False) for sp in C06.corpus(tier, rng)[::(5 if q else 2)]]
     # deterministic core: occupancy stacks whose levels name different leaders (a leader's fiber must be bound before each follower's split)
-    specs += [(sp, False) for sp in families.occ_core()]
+    specs += [(sp, False) for sp in families.occ_core() + families.conv_mask_core()]
     specs += [(sp, True) for sp in C11.hw_specs(tier, rng)[::(2 if q else 1)]]
     recs, src = [], []
     for sp, hw in specs:
@@ -70,7 +70,7 @@ def run(tier, rep):
             if id(sp) not in seen:
                 seen.add(id(sp))
                 specs.append((sp, hw))
-        for sp, hw in [x for i, x in enumerate(specs) if not q or i % 2 == 0 or x[0]["family"].startswith("occ")]:
+        for sp, hw in [x for i, x in enumerate(specs) if not q or i % 2 == 0 or x[0]["family"].startswith(("occ", "conv-us-mask"))]:
             texts, fails = [], []
             for k in [None] + list(range(3 if q else 8)):                 # None: the implementation's own order
                 if k is not None:
